@@ -1231,7 +1231,10 @@ impl store::Cob for Patch {
         repo: &R,
     ) -> Result<(), Error> {
         debug_assert!(!self.timeline.contains(&op.id));
-        self.timeline.push(op.id);
+        // N.b. an operation is applied entirely, or not at all: when one of its
+        // actions is rejected, the actions before it must not leave a trace.
+        let mut patch = self.clone();
+        patch.timeline.push(op.id);
 
         let doc = op.identity_doc(repo)?.ok_or(Error::MissingIdentity)?;
         let concurrent = concurrent.into_iter().collect::<Vec<_>>();
@@ -1239,7 +1242,7 @@ impl store::Cob for Patch {
         for action in op.actions {
             log::trace!(target: "patch", "Applying {} {action:?}", op.id);
 
-            if let Err(e) = self.op_action(
+            if let Err(e) = patch.op_action(
                 action,
                 op.id,
                 op.author,
@@ -1252,6 +1255,8 @@ impl store::Cob for Patch {
                 return Err(e);
             }
         }
+        *self = patch;
+
         Ok(())
     }
 }
